@@ -268,6 +268,33 @@ def canonicalise(raw, fname):
         elif (b.get("dk") or "").startswith(("Const", "Static", "AssocConst")):
             cur_items[k] = b
     alias = {}
+    # ---- moved types: a type of the reference that is gone, and exactly one new type with the same name, kind and
+    # variant names in another module (`certificate::CidrSubnet` -> `cidr::CidrSubnet` behind a re-export): every path
+    # through the new location is presented under the old one (methods, variants, impls, type spellings)
+    ref_types = ref_all.get("types", {}) if "fns" in ref_all else {}
+    if ref_types:
+        cur_types = {norm_path(a["def"]): a for a in raw.get("adts", [])}
+        moved = {}
+        for m in [k for k in ref_types if k not in cur_types]:
+            cands = [k for k, a in cur_types.items() if k not in ref_types and k.split("::")[-1] == m.split("::")[-1]
+                     and [a.get("kind"), [v.get("name") for v in a.get("variants") or []]] == ref_types[m]]
+            if len(cands) == 1:
+                moved[cands[0]] = m
+        if moved:
+            txt = json.dumps(raw)
+            for newp, oldp in sorted(moved.items(), key=lambda kv: -len(kv[0])):
+                txt = re.sub(r'(?<![\w:])' + re.escape(newp) + r'(?![\w])', lambda m_, o=oldp: o, txt)
+            raw = json.loads(txt)
+            alias.update(moved)
+            cur, cur_items = {}, {}
+            for b in raw["bodies"]:
+                k = norm_path(b["def"])
+                if "{closure" in k:
+                    continue
+                if b.get("dk") in ("Fn", "AssocFn"):
+                    cur[k] = b
+                elif (b.get("dk") or "").startswith(("Const", "Static", "AssocConst")):
+                    cur_items[k] = b
     # ---- functions ----
     missing = [k for k in ref if k not in cur]
     new = [k for k in cur if k not in ref]
